@@ -71,6 +71,43 @@ Fixpoint in_order (l : list sample) : Prop :=
 Definition each_packet_once (l : list sample) : Prop :=
   NoDup (flat_map (fun x => map p_id (s_pkts x)) l).
 
+(* ---------- guards of the partial order / once statements, on the ghost event log ----------
+   evlog records every change of active.head, newest first:
+     EvAnchor a h lag   active = filled: the head jumps from a to h = filled.head; lag = some packet
+                        of an already built sample is still buffered at that moment
+     EvMove k h t       the run [h, t) was consumed (k = 0: a sample was built from it, 1: dropped
+                        because it does not start at a partition head, 2: Unmarshal error)
+     EvSkip h           active.head++ in purgeBuffers *)
+Definition ev_src (e : ev) : N := match e with EvAnchor a _ _ => a | EvMove _ h _ => h | EvSkip h => h end.
+Definition ev_end (e : ev) : N := match e with EvAnchor _ h _ => h | EvMove _ _ t => t | EvSkip h => inc16 h end.
+(* how far the event moves the head, counted forwards modulo 2^16 *)
+Definition ev_len (e : ev) : N := sub16 (ev_end e) (ev_src e).
+Definition is_sample_ev (e : ev) : bool := match e with EvMove 0 _ _ => true | _ => false end.
+
+(* forward distance the head has travelled since the end of the last built sample;
+   None before the first sample *)
+Fixpoint gapl (l : list ev) : option N :=
+  match l with
+  | [] => None
+  | e :: l' => if is_sample_ev e then Some 0
+               else match gapl l' with Some g => Some (g + ev_len e) | None => None end
+  end.
+
+(* log_ok: once a sample has been built, the head never gets 32767 or more ahead of the end
+   of the last built sample.  A re-anchoring that lands behind the position reached (recorded
+   causes consumed-packets-rebuilt-after-active-drained, stale-packet-accepted-after-buffer-
+   drained) is a forward jump of 32768 or more and violates it; so do half a ring of dropped
+   or skipped sequence numbers between two samples. *)
+Fixpoint log_ok (l : list ev) : Prop :=
+  match l with
+  | [] => True
+  | e :: l' => log_ok l' /\ (is_sample_ev e = false -> forall g, gapl l' = Some g -> g + ev_len e < 32767)
+  end.
+
+(* clean_log: the active window is never re-anchored while a packet of an already built sample is
+   still buffered (the negation of consumed-packets-rebuilt-after-active-drained) *)
+Definition clean_log (l : list ev) : Prop := forall a h, ~ In (EvAnchor a h true) l.
+
 (* clause 3: a well-formed frame-structured stream (consecutive sequence
    numbers, one timestamp per frame, different from the next frame's, exactly
    the first packet a partition head and exactly the last a partition tail),
